@@ -1451,4 +1451,252 @@ Proof.
   cbn [feed a_parsed a_out a_raw]. repeat split; reflexivity.
 Qed.
 
+(* ================= Part E: the other operations ================= *)
+
+(* with no stream selected nothing is ever delivered *)
+Lemma content_from_none role id fuel : forall prem pad w, content_from role id fuel None false prem pad w = [].
+Proof.
+  induction fuel as [|f IH]; intros prem pad w; [reflexivity|].
+  rewrite content_from_S. unfold cf_body. rewrite !IH.
+  destruct (0 <? prem).
+  { destruct (len w <? prem); reflexivity. }
+  destruct (0 <? pad).
+  { destruct (len w <=? pad); reflexivity. }
+  destruct (len w <? HEADER_LEN); [reflexivity|]. cbv zeta.
+  destruct (hdr_decode (take HEADER_LEN w)) as [t rid cl pl|v|t]; rewrite ?IH; try reflexivity.
+  destruct (is_input_stream t && (rid =? id)).
+  - cbn [cmp_input_streams]. reflexivity.
+  - destruct ((t =? RT_AbortRequest) && (rid =? id)); reflexivity.
+Qed.
+
+Lemma F_none a u : F None a u = [].
+Proof. unfold F. apply content_from_none. Qed.
+
+(* ---- consume_stream ---- *)
+Theorem consume_stream_law a k u :
+  K a u = take (N.min k (len (a_parsed a))) (a_parsed a) ++ K (aconsume_stream a k) u /\
+  R maxc (aconsume_stream a k) u = R maxc a u /\
+  (forall sg, F sg (aconsume_stream a k) u = F sg a u).
+Proof.
+  split; [|split; [reflexivity|intros sg; reflexivity]].
+  rewrite !K_eq. unfold aconsume_stream, rl, ri.
+  cbn [a_B a_space a_parsed a_raw a_out a_req a_stream a_prem a_pad a_st].
+  rewrite app_assoc, take_drop. reflexivity.
+Qed.
+
+Theorem consume_stream_inv a k : a_inv a -> a_inv (aconsume_stream a k).
+Proof.
+  intros [Hok [Hp [Hq [Hb [Hs Hi]]]]]. unfold a_inv, a_ok, aconsume_stream in *.
+  cbn [a_B a_space a_parsed a_raw a_out a_req a_stream a_prem a_pad a_st].
+  rewrite len_drop. repeat split; try assumption. lia.
+Qed.
+
+(* ---- compress ---- *)
+Theorem compress_law a u :
+  K (acompress a) u = K a u /\ R maxc (acompress a) u = R maxc a u /\ (forall sg, F sg (acompress a) u = F sg a u).
+Proof. split; [reflexivity|split; [reflexivity|intros sg; reflexivity]]. Qed.
+
+Theorem compress_inv a : a_inv a -> a_inv (acompress a).
+Proof.
+  intros [Hok [Hp [Hq [Hb [Hs Hi]]]]]. unfold a_inv, a_ok, acompress in *.
+  cbn [a_B a_space a_parsed a_raw a_out a_req a_stream a_prem a_pad a_st].
+  repeat split; try assumption. lia.
+Qed.
+
+(* after compress the free space is everything that is not occupied: no well-formed state with the same
+   buffer size and contents has more *)
+Theorem compress_space_max a :
+  a_space (acompress a) = a_B a - (len (a_parsed a) + len (a_raw a)) /\
+  (forall a2, a_ok a2 -> a_B a2 = a_B a -> a_parsed a2 = a_parsed a -> a_raw a2 = a_raw a ->
+              a_space a2 <= a_space (acompress a)).
+Proof.
+  split; [reflexivity|]. intros a2 Hok HB Hp Hr. unfold a_ok in Hok. rewrite HB, Hp, Hr in Hok.
+  unfold acompress. cbn [a_space]. lia.
+Qed.
+
+(* ---- consume_output ---- *)
+Theorem consume_output_law a k u :
+  R maxc a u = take (N.min k (len (a_out a))) (a_out a) ++ R maxc (aconsume_output a k) u /\
+  K (aconsume_output a k) u = K a u /\ (forall sg, F sg (aconsume_output a k) u = F sg a u).
+Proof.
+  split; [|split; [reflexivity|intros sg; reflexivity]].
+  rewrite !R_eq. unfold aconsume_output, ri.
+  cbn [a_B a_space a_parsed a_raw a_out a_req a_stream a_prem a_pad a_st].
+  destruct (N.leb_spec (len (a_out a)) k) as [Hl|Hl].
+  - rewrite (N.min_r k) by lia. rewrite (take_all (len (a_out a))) by lia. reflexivity.
+  - rewrite (N.min_l k) by lia. rewrite app_assoc, take_drop. reflexivity.
+Qed.
+
+Theorem consume_output_inv a k : a_inv a -> a_inv (aconsume_output a k).
+Proof. intros H. exact H. Qed.
+
+(* ---- set_stream ---- *)
+Lemma accepts_input role cur x : accepts role cur (Some x) = Some true -> is_input_stream x = true.
+Proof.
+  unfold accepts, cmp_input_streams. destruct cur as [e|]; [|discriminate].
+  destruct (is_input_stream x); [reflexivity|]. cbn [negb orb]. discriminate.
+Qed.
+
+(* selecting a different stream: the stream buffer is dropped, and what the new epoch will deliver is
+   exactly the not yet consumed future content of the selected stream; replies and the content of every
+   stream still to come are untouched *)
+Theorem set_stream_law a s a' u : a_inv a -> aset_stream a s = ASetOk a' ->
+  (optN_eqb s (a_stream a) = true -> a' = a) /\
+  (optN_eqb s (a_stream a) = false ->
+     a_stream a' = s /\ a_parsed a' = [] /\ a_req a' = a_req a /\ a_out a' = a_out a /\ a_raw a' = a_raw a /\
+     K a' u = F s a u) /\
+  R maxc a' u = R maxc a u /\
+  (forall sg, F sg a' u = F sg a u) /\
+  a_inv a'.
+Proof.
+  intros Hinv. unfold aset_stream.
+  destruct (accepts (r_role (a_req a)) (a_stream a) s) as [[|]|] eqn:Hacc; try discriminate.
+  destruct (optN_eqb s (a_stream a)) eqn:Heq.
+  - intros H; inversion H; subst a'. split; [reflexivity|]. split; [discriminate|].
+    split; [reflexivity|]. split; [intros sg; reflexivity|exact Hinv].
+  - intros H; inversion H; subst a'. clear H. split; [discriminate|].
+    assert (Hcur : cur_st (match a_st a with SStream => SSkip | x => x end) = false).
+    { destruct (a_st a); reflexivity. }
+    split.
+    { intros _. cbn [a_stream a_parsed a_req a_out a_raw]. repeat split.
+      rewrite K_eq, F_eq. unfold rl, ri.
+      cbn [a_B a_space a_parsed a_raw a_out a_req a_stream a_prem a_pad a_st]. rewrite Hcur. reflexivity. }
+    split.
+    { rewrite !R_eq. unfold ri. cbn [a_B a_space a_parsed a_raw a_out a_req a_stream a_prem a_pad a_st].
+      f_equal. destruct (a_st a); try reflexivity. apply RA_nv; exact I. }
+    split; [intros sg; reflexivity|].
+    destruct Hinv as [Hok [Hp [Hq [Hb [Hs Hi]]]]]. unfold a_inv, a_ok in *.
+    cbn [a_B a_space a_parsed a_raw a_out a_req a_stream a_prem a_pad a_st].
+    change (len (@nil N)) with 0. repeat split; try assumption.
+    + lia.
+    + intros E. destruct (a_st a); discriminate E.
+    + destruct s as [x|]; [|exact I]. apply (accepts_input _ _ _ Hacc).
+Qed.
+
+(* in particular: with no stream selected nothing will be delivered *)
+Corollary set_stream_none a a' u : a_inv a -> aset_stream a None = ASetOk a' -> a_stream a <> None ->
+  K a' u = [].
+Proof.
+  intros Hinv H Hne. destruct (set_stream_law a None a' u Hinv H) as [_ [H2 _]].
+  assert (Hf : optN_eqb None (a_stream a) = false) by (destruct (a_stream a); [reflexivity|congruence]).
+  destruct (H2 Hf) as [_ [_ [_ [_ [_ HK]]]]]. rewrite HK. apply F_none.
+Qed.
+
+(* ================= Part F: schedules ================= *)
+Inductive sop :=
+| OParse (new : bytes) (dest : option N)     (* write new into input_buffer(), parse(len, dest) *)
+| OConsumeStream (k : N)
+| OCompress
+| OConsumeOutput (k : N).
+
+Definition fed_of (op : sop) : bytes := match op with OParse new _ => new | _ => [] end.
+
+(* state after the operation, stream bytes handed to the caller, output bytes taken by the caller *)
+Definition sstep (a : ast) (op : sop) : ast * bytes * bytes :=
+  match op with
+  | OParse new dest =>
+    match aparse maxc a new dest with
+    | AOk a' s | AFail a' _ s => (a', s_dest s, [])
+    | APanicked _ => (a, [], [])
+    end
+  | OConsumeStream k => (aconsume_stream a k, take (N.min k (len (a_parsed a))) (a_parsed a), [])
+  | OCompress => (acompress a, [], [])
+  | OConsumeOutput k => (aconsume_output a k, [], take (N.min k (len (a_out a))) (a_out a))
+  end.
+
+Fixpoint srun (a : ast) (ops : list sop) : ast * bytes * bytes :=
+  match ops with
+  | [] => (a, [], [])
+  | op :: r =>
+    let '(a1, d1, e1) := sstep a op in
+    let '(a2, d2, e2) := srun a1 r in
+    (a2, d1 ++ d2, e1 ++ e2)
+  end.
+
+Definition op_legal (a : ast) (op : sop) : Prop :=
+  match op with OParse new dest => legal a new dest | _ => True end.
+
+Fixpoint sched_legal (a : ast) (ops : list sop) : Prop :=
+  match ops with
+  | [] => True
+  | op :: r => op_legal a op /\ sched_legal (fst (fst (sstep a op))) r
+  end.
+
+Definition fed (ops : list sop) : bytes := flat_map fed_of ops.
+
+Definition step_law (a : ast) (new : bytes) (a1 : ast) (d e : bytes) : Prop :=
+  a_inv a1 /\ a_stream a1 = a_stream a /\ a_req a1 = a_req a /\
+  forall u, K a (new ++ u) = d ++ K a1 u /\ R maxc a (new ++ u) = e ++ R maxc a1 u /\
+            forall sg, later_stream a sg -> F (Some sg) a (new ++ u) = F (Some sg) a1 u.
+
+Lemma sstep_law a op : a_inv a -> op_legal a op ->
+  step_law a (fed_of op) (fst (fst (sstep a op))) (snd (fst (sstep a op))) (snd (sstep a op)).
+Proof.
+  intros Hinv Hleg. destruct op as [new dest|k| |k]; cbn [fed_of op_legal] in *.
+  - assert (H : exists l', (aparse maxc a new dest = AOk (al l') (ares l') \/
+                            exists e, aparse maxc a new dest = AFail (al l') e (ares l')) /\
+                           pres (l0 a new dest) l' /\ linv l').
+    { destruct (aparse_spec a new dest Hinv Hleg) as [[l' [E [P [I _]]]]|[l' [e [E [[P [I _]] _]]]]].
+      - exists l'. split; [left; exact E|split; assumption].
+      - exists l'. split; [right; exists e; exact E|split; assumption]. }
+    destruct H as [l' [E [P I]]].
+    assert (Hs : sstep a (OParse new dest) = (al l', s_dest (ares l'), @nil N)).
+    { cbn [sstep]. destruct E as [E|[e E]]; rewrite E; reflexivity. }
+    rewrite Hs. cbn [fst snd]. split; [apply I|].
+    split; [apply (p_stream _ _ P)|]. split; [apply (p_req _ _ P)|].
+    intros u. split; [|split].
+    + pose proof (p_K _ _ P u) as H. cbn [l0 al ares res0 s_dest app] in H. rewrite K_feed in H. exact H.
+    + rewrite <- (R_feed a new u). apply (p_R _ _ P).
+    + intros sg Hl. rewrite <- (F_feed (Some sg) a new u). apply (p_F _ _ P). exact Hl.
+  - cbn [sstep fst snd app]. split; [apply consume_stream_inv; exact Hinv|]. split; [reflexivity|]. split; [reflexivity|].
+    intros u. destruct (consume_stream_law a k u) as [HK [HR HF]].
+    split; [exact HK|]. split; [rewrite HR; reflexivity|]. intros sg _. rewrite HF. reflexivity.
+  - cbn [sstep fst snd app]. split; [apply compress_inv; exact Hinv|]. split; [reflexivity|]. split; [reflexivity|].
+    intros u. split; [reflexivity|]. split; [reflexivity|]. intros sg _. reflexivity.
+  - cbn [sstep fst snd app]. split; [exact Hinv|]. split; [reflexivity|]. split; [reflexivity|].
+    intros u. destruct (consume_output_law a k u) as [HR [HK HF]].
+    split; [rewrite HK; reflexivity|]. split; [exact HR|]. intros sg _. rewrite HF. reflexivity.
+Qed.
+
+(* over every schedule of legal calls: the bytes handed to the caller followed by what is still owed
+   equal what was owed at the start, for the active stream and for the reply channel; later streams
+   are never touched *)
+Theorem schedule_law ops : forall a, a_inv a -> sched_legal a ops ->
+  step_law a (fed ops) (fst (fst (srun a ops))) (snd (fst (srun a ops))) (snd (srun a ops)).
+Proof.
+  induction ops as [|op r IH]; intros a Hinv Hleg.
+  - cbn [srun fed flat_map fst snd app]. split; [exact Hinv|]. split; [reflexivity|]. split; [reflexivity|].
+    intros u. split; [reflexivity|]. split; [reflexivity|]. intros sg _. reflexivity.
+  - destruct Hleg as [Hop Hr]. cbn [srun fed flat_map].
+    pose proof (sstep_law a op Hinv Hop) as H1.
+    destruct (sstep a op) as [[a1 d1] e1]. cbn [fst snd] in *.
+    destruct H1 as [I1 [S1 [Q1 L1]]].
+    pose proof (IH a1 I1 Hr) as H2.
+    destruct (srun a1 r) as [[a2 d2] e2]. cbn [fst snd] in *.
+    destruct H2 as [I2 [S2 [Q2 L2]]].
+    split; [exact I2|]. split; [congruence|]. split; [congruence|].
+    intros u. rewrite <- !app_assoc.
+    destruct (L1 (flat_map fed_of r ++ u)) as [K1 [R1 F1]].
+    destruct (L2 u) as [K2 [R2 F2]]. fold (fed r) in *.
+    split; [rewrite K1, K2; reflexivity|]. split; [rewrite R1, R2; reflexivity|].
+    intros sg Hl. rewrite (F1 sg Hl). apply F2.
+    unfold later_stream in *. rewrite S1, Q1. exact Hl.
+Qed.
+
 End Machine.
+
+Print Assumptions T_total.
+Print Assumptions T_content.
+Print Assumptions T_later.
+Print Assumptions T_replies.
+Print Assumptions T_end.
+Print Assumptions T_sticky.
+Print Assumptions consume_stream_law.
+Print Assumptions consume_stream_inv.
+Print Assumptions compress_law.
+Print Assumptions compress_inv.
+Print Assumptions compress_space_max.
+Print Assumptions consume_output_law.
+Print Assumptions set_stream_law.
+Print Assumptions set_stream_none.
+Print Assumptions schedule_law.
